@@ -137,6 +137,21 @@ var c12Ops = []c12Op{
 		if o, err := ap.ToObject(x); err == nil && o != nil {
 			fmt.Fprint(&sb, "to:", o.Type)
 		}
+		_ = ap.On[ap.Object](x, func(o *ap.Object) error {
+			if o != nil {
+				fmt.Fprint(&sb, "gen-o:", o.ID)
+			}
+			return nil
+		})
+		_ = ap.On[*ap.Object](x, func(o **ap.Object) error {
+			if o != nil && *o != nil {
+				fmt.Fprint(&sb, "gen-po:", (*o).ID)
+			}
+			return nil
+		})
+		if p, err := ap.To[*ap.Actor](x); err == nil && p != nil && *p != nil {
+			fmt.Fprint(&sb, "gen-pa:", (*p).ID)
+		}
 		return sb.String()
 	}},
 	{"lists(read-only)", func(x ap.Item) string {
@@ -152,6 +167,7 @@ var c12Ops = []c12Op{
 				}
 				_ = ap.OnIRIs(l, func(i *ap.IRIs) error { fmt.Fprint(&sb, "oniris:", len(*i)); return nil })
 				_ = ap.OnItemCollection(l, func(c *ap.ItemCollection) error { fmt.Fprint(&sb, "onitems:", len(*c)); return nil })
+				fmt.Fprint(&sb, "norm:", ap.IsNil(l.Normalize()), l.ItemsMatch(ap.IRI("https://example.com/none")), len(l.Collection()))
 				if len(l) > 0 {
 					fmt.Fprint(&sb, l.Contains(l[len(l)-1]))
 				}
